@@ -55,7 +55,7 @@ Section Electrum.
     Theorem v1_get_address_c w c i a : get_addr w c i = Ok a ->
       exists P, get_pub w c i = Ok P /\ a = addr_of P /\
         p2pkh_decode sha256 b58_alph_btc electrum_v1_addr_net_ver a = Ok (h160 (ser_u P)).
-    Proof.
+    Proof using sha_len sha_ok rip_len rip_ok.
       unfold v1c_get_address. rewrite Lemmas.ElectrumWallet.v1_address_uncompressed.
       destruct (get_pub w c i) as [P|]; cbn [bind Ok]; [|discriminate]. intros H. inversion H. exists P.
       split; [reflexivity|]. split; [reflexivity|].
@@ -74,7 +74,7 @@ Section Electrum.
 
     Theorem v2_std_address_c o a : std_address o = Ok a ->
       exists x, o = Ok x /\ v2c_std_decode sha256 a = Ok (h160 (pub_of x)).
-    Proof.
+    Proof using sha_len sha_ok rip_len rip_ok.
       unfold v2c_std_address. destruct o as [x|]; cbn [bind Ok]; [|discriminate]. intros H. inversion H.
       exists x. split; [reflexivity|]. unfold v2c_std_decode.
       apply (Lemmas.AddrB58.p2pkh_decode_encode sha256 ripemd160 sha_len sha_ok rip_len rip_ok).
@@ -84,7 +84,7 @@ Section Electrum.
 
     (* the SegWit encoder never refuses a 20-byte program under the configured HRP: the address exists ... *)
     Theorem v2_segwit_address_total x : exists a, segwit_address (Ok x) = Ok a.
-    Proof.
+    Proof using sha_len sha_ok rip_len rip_ok.
       unfold v2c_segwit_address. cbn [bind Ok]. unfold p2wpkh_encode.
       destruct (Lemmas.Bech32.segwit_dec_enc electrum_v2_segwit_addr_hrp p2wpkh_wit_ver (h160 (pub_of x))) as (s & E & _).
       - apply link_consts_ok.
@@ -96,10 +96,10 @@ Section Electrum.
     (* ... and decodes to the hash160 of the compressed key *)
     Theorem v2_segwit_address_c o a : segwit_address o = Ok a ->
       exists x, o = Ok x /\ v2c_segwit_decode a = Ok (h160 (pub_of x)).
-    Proof.
+    Proof using sha_len sha_ok rip_len rip_ok.
       unfold v2c_segwit_address. destruct o as [x|]; cbn [bind Ok]; [|discriminate]. intros H.
       exists x. split; [reflexivity|]. unfold v2c_segwit_decode.
-      apply (Lemmas.AddrInstBech32.p2wpkh_rt sha256 ripemd160 rip_len rip_ok _ (pub_of x) a); [apply link_consts_ok|exact H].
+      eapply Lemmas.AddrInstBech32.p2wpkh_rt; eauto. apply link_consts_ok.
     Qed.
   End V2.
 End Electrum.
